@@ -352,6 +352,16 @@ def _aligned_verdict(ctx, a, b, expect, why, inst):
                      f"n={list(a.n)}; b pmin={np.asarray(b.region.pmin).tolist()} cell={np.asarray(b.cell).tolist()} "
                      f"n={list(b.n)}", instance=inst)
             return
+    # the same question with the tolerance passed explicitly (the value the default stands for): same verdict
+    big = max(float(np.abs(np.asarray(c, dtype=float)).max()) for c in (a.region.pmin, a.region.pmax, b.region.pmin, b.region.pmax))
+    tol = 1e-12 * (float(np.min(a.cell)) + big)
+    ctx.step(1)
+    raised, r = C.raises(a.is_aligned, b, tol)
+    ctx.check()
+    if raised or bool(r) != expect:
+        ctx.fail("Mesh.is_aligned/explicit-tolerance-changes-the-verdict",
+                 f"a.is_aligned(b, {tol!r}) = {type(r).__name__ + ': ' + str(r)[:80] if raised else bool(r)}, expected {expect} ({why})",
+                 instance=inst)
 
 
 def unit_aligned1d(ctx):
